@@ -4,7 +4,7 @@ package main
 // named []byte types are reference slices, and per generated file the structs and functions.
 
 // mPackages: package patterns (relative to the repository root) loaded for the translator.
-var mPackages = []string{".", "./typed"}
+var mPackages = []string{".", "./typed", "./thrift/arg2", "./http"}
 
 // mRefTypes: named []byte types whose values alias the backing array of a WriteBuffer.
 var mRefTypes = map[string]bool{
@@ -29,6 +29,8 @@ var mfiles = []*MFile{
 			{Type: "typed.WriteBuffer", Fields: map[string]string{"buffer": "mem", "remaining": "ref"}},
 		},
 		Targets: []*MTarget{
+			mt("typed.NewReadBuffer"),
+			mt("typed.NewWriteBuffer"),
 			mt("typed.ReadBuffer.ReadByte"),
 			mt("typed.ReadBuffer.ReadSingleByte"),
 			mt("typed.ReadBuffer.ReadBytes"),
@@ -112,6 +114,27 @@ var mfiles = []*MFile{
 			mt("tchannel.cancelMessage.write"),
 			mt("tchannel.FrameHeader.read"),
 			mt("tchannel.FrameHeader.write"),
+		},
+	},
+	{
+		// C18: thrift/arg2/kv_iterator.go (the relay's arg2 iterator) and the string helpers of
+		// http/buf.go.  ReadUvarint / WriteUvarint are call hints to Model/UvarintG.v (the loop of
+		// encoding/binary re-modelled over the generated ReadByte / WriteBytes).
+		// Not translated: http readHeaders / writeHeaders (http.Header = map[string][]string with
+		// append), thrift WriteHeaders / readHeaders (typed.Reader over io.Reader).
+		Name:    "GenCodecs",
+		Imports: []string{"Gen.GenTypedBuf", "Model.UvarintG"},
+		Structs: []*StructRep{
+			{Type: "arg2.KeyValIterator"},
+		},
+		Targets: []*MTarget{
+			mt("arg2.KeyValIterator.Key"),
+			mt("arg2.KeyValIterator.Value"),
+			mt("arg2.KeyValIterator.Remaining"),
+			mt("arg2.KeyValIterator.Next"),
+			mt("arg2.NewKeyValIterator"),
+			{Func: "http.readVarintString", CallHints: map[string]string{"typed.ReadBuffer.ReadUvarint": "g_ReadUvarint!recv"}},
+			{Func: "http.writeVarintString", CallHints: map[string]string{"typed.WriteBuffer.WriteUvarint": "g_WriteUvarint!recv"}},
 		},
 	},
 }
